@@ -450,6 +450,25 @@ static Case cases[] = {
          }
          return bad;
      }},
+    // ---- C10: precision 0
+    {"digit_precision_zero", [] {
+         struct { double v; Digit::RealFormatType t; const char *want; } cs[] = {
+             {0.0, Digit::RealFormatType::Fixed, "0"},      {1.5, Digit::RealFormatType::Fixed, "2"},      {0.518, Digit::RealFormatType::Fixed, "1"},
+             {0.2, Digit::RealFormatType::Fixed, "0"},      {123.456, Digit::RealFormatType::Fixed, "123"}, {0.518, Digit::RealFormatType::SemiFixed, "1"},
+             {2.5, Digit::RealFormatType::Default, "2"},    {10.4, Digit::RealFormatType::Default, "1e+01"}, {0.04, Digit::RealFormatType::Default, "0.04"},
+         };
+         int bad = 0;
+         for (auto &c : cs) {
+             StringStream<char> ss;
+             Digit::NumberToString(ss, c.v, Digit::RealFormatInfo{0U, c.t});
+             if (!ss.IsEqual(c.want, (SizeT)strlen(c.want))) {
+                 ss += '\0';
+                 printf("expected [%s], got [%s] for %.17g at precision 0\n", c.want, ss.First(), c.v);
+                 ++bad;
+             }
+         }
+         return bad;
+     }},
     // ---- C01: tag records whose 16-bit fields cannot hold the tag
     {"tmpl_inline_if_longer_than_16_bits", [] {
          std::string t = "{if case=\"1\" true=\"";
